@@ -23,7 +23,7 @@ ASSUMPTIONS = [
 ]
 PLAN = {
     "quick": {"shards": 8, "shard_timeout": 500, "case_timeout": 120, "configs": 40, "envs": 4, "max_case_timeouts": 2},
-    "thorough": {"shards": 16, "shard_timeout": 2400, "case_timeout": 240, "configs": 400, "envs": 6, "max_case_timeouts": 8},
+    "thorough": {"shards": 16, "shard_timeout": 3600, "case_timeout": 240, "configs": 1200, "envs": 6, "max_case_timeouts": 20},
 }
 THRESHOLDS = {
     "quick": {"configurations_compared": 35, "child_runs": 140, "set:environments": 6, "repr:tree": 4, "repr:ge": 4, "repr:sge": 4, "repr:dsge": 4, "repr:stack": 4, "alg:gp": 5, "alg:rs": 5, "alg:hc": 5, "alg:opo": 5, "evaluations_traced": 2000, "distinct_programs_traced": 300},
